@@ -195,6 +195,13 @@ def _quiet_unraisable():
     def hook(u):
         if isinstance(u.exc_value, (SimAbort, SimKilled)):
             return
+        if isinstance(u.exc_value, HarnessError) and "unsimulated nondeterminism source" in str(u.exc_value):
+            # a finalizer of the finished run (a suspended generator's cleanup, a lock object)
+            # reached the real OS after the simulation was taken down: the tripwire stopped it
+            return
+        if isinstance(u.exc_value, OSError) and getattr(u.exc_value, "errno", None) == 9:
+            # ... or closed one of the simulation's descriptor numbers (>= 10^6) on the real OS
+            return
         _orig_unraisable[0](u)
     sys.unraisablehook = hook
 
